@@ -12,6 +12,7 @@
 #include "alloc.h"
 #include "ref/xzparse.h"
 #include "ref/lzma_syn.h"
+#include "ref/lzma_adv.h"
 #include "ref/containers.h"
 
 using namespace vg;
@@ -237,9 +238,17 @@ static void mode_raw(Case &c) {
 	drv::Schedule sch = drv::draw_schedule(c, true);
 	std::vector<uint8_t> bytes, plain; lzma_options_lzma o; memset(&o, 0, sizeof o); lzma_filter f[2]; f[1].id = LZMA_VLI_UNKNOWN; f[1].options = NULL; f[0].options = &o;
 	o.preset_dict = pd.empty() ? NULL : pd.data(); o.preset_dict_size = (uint32_t)pd.size();
-	std::map<std::string, unsigned> feat;
+	std::map<std::string, unsigned> feat; ref::AdvStream adv; bool is_adv = false;
 	if (l2) { L2 L = syn_lzma2(c, pd.data(), pd.size(), true); bytes = L.bytes; plain = L.plain; o.dict_size = (uint32_t)ref::lzma2_dict_from_byte(L.dict_byte); f[0].id = LZMA_FILTER_LZMA2; feat = L.feat; }
-	else {
+	else if (c.rare(5)) {
+		// a stream whose last match costs ~15-18 input bytes (every probability on its path trained the other way first):
+		// the worst case that the decoder's fast/safe loop boundary (LZMA_IN_REQUIRED) is computed for; see ref/lzma_adv.h
+		pd.clear(); o.preset_dict = NULL; o.preset_dict_size = 0;
+		adv = ref::adversarial_stream(100 + c.u(100), c.u(5)); is_adv = true;
+		bytes = adv.bytes; plain = adv.plain; o.lc = o.lp = o.pb = 0; o.dict_size = c.flag() ? adv.dict_needed : (1u << 20);
+		f[0].id = LZMA_FILTER_LZMA1EXT; o.ext_size_low = (uint32_t)plain.size(); o.ext_size_high = 0; o.ext_flags = c.flag() ? LZMA_LZMA1EXT_ALLOW_EOPM : 0;
+		++feat[adv.e_cost >= 15 ? "symbol_costing_15_or_more_input_bytes" : "symbol_costing_10_to_14_input_bytes"];
+	} else {
 		unsigned lc, lp, pb; draw_props(c, lc, lp, pb); uint32_t dict = 4096u << c.u(4); o.dict_size = dict; o.lc = lc; o.lp = lp; o.pb = pb;
 		std::vector<uint8_t> win; if (!pd.empty()) { size_t k = std::min<size_t>(pd.size(), ref::effective_dict(dict)); win.assign(pd.end() - k, pd.end()); } size_t base = win.size();
 		ref::LzmaSyn z; z.start(lc, lp, pb); SymGen G{c, z, win, ref::effective_dict(dict)}; unsigned nsym = c.rare(40) ? c.u16() % 4000 : c.u(80);
@@ -261,8 +270,11 @@ static void mode_raw(Case &c) {
 	if (L.out != plain) { size_t d = 0; while (d < L.out.size() && d < plain.size() && L.out[d] == plain[d]) ++d; violation("C03:different-bytes", "synthesised raw stream decodes to %zu bytes, by construction %zu, first difference at %zu", L.out.size(), plain.size(), d); }
 	for (auto &kv : feat) count("feat_" + kv.first, 1);
 	if (!pd.empty()) count("feat_preset_dictionary");
-	// mutation, judged by the reference raw decoders
-	if (c.rare(120)) { std::vector<uint8_t> dmg = bytes; std::string mut = cm::mutate(c, dmg); if (mut != "none") {
+	// mutation, judged by the reference raw decoders (the expensive symbol: input that ends inside it, or a flipped bit in it)
+	if (is_adv || c.rare(120)) { std::vector<uint8_t> dmg = bytes; std::string mut;
+		if (is_adv && c.chance(170)) { size_t at = adv.e_first - 2 + c.u(24); if (c.flag() && at < dmg.size()) { dmg[at] ^= (uint8_t)(1u << c.u(8)); mut = "flip-inside-expensive-symbol"; } else { dmg.resize(std::min(dmg.size(), at)); mut = "truncate-inside-expensive-symbol"; } }
+		else mut = cm::mutate(c, dmg);
+		if (mut != "none") {
 		std::vector<uint8_t> rout; int rst; std::string rule = "raw data";
 		if (l2) { ref::Lzma2Result R = ref::lzma2_decode(dmg.data(), dmg.size(), o.dict_size, rout, pd.data(), pd.size(), plain.size() + (1u << 20)); rst = R.status; }
 		else { bool ext = f[0].id == LZMA_FILTER_LZMA1EXT; uint64_t sz = ext ? (((uint64_t)o.ext_size_high << 32) | o.ext_size_low) : UINT64_MAX; bool allow = !ext || (o.ext_flags & LZMA_LZMA1EXT_ALLOW_EOPM) || sz == UINT64_MAX;
